@@ -631,3 +631,67 @@ func TestSpecificItemsReload(t *testing.T) {
 		}
 	})
 }
+
+// TestSmallCapacityResidency: capacity below the number of values in play. The capacity is "not exceeded" for a value V
+// as long as fewer than `capacity` distinct other values were requested between two consecutive requests of V (V is then
+// among the `capacity` most recently requested values at each of its requests). At one instant (no refill) such a value is
+// admitted at most threshold+burst tokens in total, however many other values come and go meanwhile. Nothing is asserted
+// about a value once `capacity` or more distinct others came in between (it may or may not have been dropped): its count
+// starts afresh.
+func TestSmallCapacityResidency(t *testing.T) {
+	hx.Check(t, hx.N{Quick: 3000, Thorough: 30000}, func(t *rapid.T, c *hx.Case) {
+		capacity := rapid.IntRange(1, 4).Draw(t, "capacity")
+		T := int64(rapid.IntRange(1, 2).Draw(t, "T"))
+		burst := int64(rapid.IntRange(0, 1).Draw(t, "burst"))
+		nv := capacity + rapid.IntRange(1, 4).Draw(t, "extraValues")
+		hx.Reset(hx.Epoch + uint64(rapid.IntRange(0, 999).Draw(t, "t0")))
+		r := &hotspot.Rule{ID: "small", Resource: "h", MetricType: hotspot.QPS, ParamIndex: 0, Threshold: T, BurstCount: burst, DurationInSec: 1, ParamsMaxCapacity: int64(capacity), SpecificItems: map[interface{}]int64{}}
+		if _, err := hotspot.LoadRules([]*hotspot.Rule{r}); err != nil {
+			t.Fatalf("load: %v", err)
+		}
+		admitted := make([]int64, nv) // tokens admitted since the value's residency began
+		resident := make([]bool, nv)  // continuously among the `capacity` most recently requested values since then
+		var recent []int              // distinct values, most recent last
+		n := rapid.IntRange(5, 40).Draw(t, "n")
+		hot := rapid.IntRange(0, nv-1).Draw(t, "hot")
+		sawKept := false
+		for i := 0; i < n; i++ {
+			v := hot
+			if rapid.IntRange(0, 2).Draw(t, "other") > 0 {
+				v = rapid.IntRange(0, nv-1).Draw(t, "v")
+			}
+			// position of v in the recency list: resident iff it is among the last `capacity` distinct values
+			pos := -1
+			for k, x := range recent {
+				if x == v {
+					pos = k
+				}
+			}
+			if pos < 0 || len(recent)-pos > capacity {
+				resident[v], admitted[v] = false, 0 // (may have been dropped: its count starts afresh, nothing is asserted about this request)
+			}
+			if pos >= 0 {
+				recent = append(recent[:pos], recent[pos+1:]...)
+			}
+			recent = append(recent, v)
+			e, blk := sentinel.Entry("h", sentinel.WithArgs(fmt.Sprint("v", v)))
+			if e != nil {
+				e.Exit()
+			}
+			if blk == nil {
+				admitted[v]++
+			}
+			if resident[v] {
+				sawKept = true
+				if admitted[v] > T+burst {
+					t.Fatalf("capacity %d, threshold %d, burst %d, one instant: value v%d has now been admitted %d tokens although fewer than %d distinct other values were requested between any two of its requests (request #%d, recency %v): its metering state was dropped while the capacity was not exceeded for it", capacity, T, burst, v, admitted[v], capacity, i, recent)
+				}
+			}
+			resident[v] = true
+		}
+		c.Op("capacity=%d values=%d T=%d burst=%d requests=%d", capacity, nv, T, burst, n)
+		if sawKept {
+			c.NonTrivial()
+		}
+	})
+}
